@@ -514,6 +514,11 @@ func (m *Model) judgeSetUserName(c *Call, v *Verdict, args [][]byte, sndLocal, d
 	if !isDNS {
 		v.Labels = append(v.Labels, "unauthorised-account-call")
 	}
+	if msg != nil && isDNS && dstLocal && msg.Gas >= m.gas(c.Shard, "SaveUserName") {
+		// the continuation of the library's own cross-shard SetUserName (enough gas under the schedule now in force)
+		cl := clause([]string{"C10", "C18"}, "SetUserName/delivery-refused", "the cross-shard SetUserName message emitted by the library was refused by the destination shard's SetUserName")
+		v.MustSucceed = &cl
+	}
 	v.Apply = func(res *Result) []Clause {
 		var out []Clause
 		if isDNS && dstLocal {
